@@ -30,6 +30,11 @@ EXTRA_EXISTING = [[], [], ["into_existing"], ["owned_into_existing"], ["ref_into
 def rnd_expr(ty, k, x):
     """Rust expression applying the marker constant k to x, for leaf type ty"""
     if ty in NUM:
+        # the placeholder also sits inside bracket- and parenthesis-delimited groups (substitution has to descend into every delimiter)
+        if k % 3 == 0:
+            return f"[{x}][0].wrapping_add({k % 100 + 1})"
+        if k % 3 == 1:
+            return f"({x}).wrapping_add({k % 100 + 1})"
         return f"{x}.wrapping_add({k % 100 + 1})"
     if ty == "bool":
         return f"({x} ^ {'true' if k % 2 else 'false'})"
